@@ -259,12 +259,14 @@ def custom(ctx):
 
 SPEC = {
     "id": "C15",
-    "gens": ["Reserved"],
-    "lean_modules": ["RsslVerif.Thm.C15"],  # imports Lemmas.Names, Lemmas.NamesOrder, Lemmas.NamesTables (decide facts, cached)
+    "gens": ["Reserved", "UsageOperands", "UsageTables"],  # UsageTables: tools/gens/c02.py (exprArms, symbolInserts)
+    "lean_modules": ["RsslVerif.Thm.C15", "RsslVerif.Thm.C15Usage"],  # imports Lemmas.Names, Lemmas.NamesOrder, Lemmas.NamesTables (decide facts, cached)
     "theorems": [T + n for n in [
         "source_fingerprints", "reserved_complete", "build_scope_order_independent", "never_reserved",
         "injective_per_scope", "verbatim", "renaming_equivariant_partial", "locals_apart_from_used",
         "scope_loop_terminates",
+        # the usage analysis that feeds build sees a symbol wherever its use sits (Thm/C15Usage.lean; gap C15-7)
+        "usage_visits_all_operands", "used_symbols_include_index_positions", "locals_apart_from_mentioned",
         # the emitted program (Model/NamesEmit: how both exporters consume the map)
         "emitted_never_reserved", "emitted_injective_file_scope", "flat_used_name_unique",
         # identifiers the exporters introduce themselves (implicit wave parameters, stage locals, wrapper names)
@@ -285,7 +287,11 @@ SPEC = {
                   "(per-scope sorted groups, names that can be kept are claimed first, first free name_k for the rest, enum values as "
                   "symbols of the enclosing scope, local-variable pass that avoids the names of used functions/globals): names are never "
                   "reserved, never shared inside a namespace-level scope, unique unreserved names are kept verbatim, locals never take the "
-                  "name of a used function/global, the result does not depend on hash iteration order, and the function commutes exactly "
+                  "name of a used function/global - and 'used' covers a mention at every expression position: every operand field of "
+                  "every ir::Expression variant (re-extracted from the enum) is descended into by its arm of gather_usage_for_expression "
+                  "(re-extracted per or-pattern alternative), so a mention at the end of any path of operand steps, e.g. inside a subscript "
+                  "index, is recorded (usage_visits_all_operands, used_symbols_include_index_positions, locals_apart_from_mentioned) -, "
+                  "the result does not depend on hash iteration order, and the function commutes exactly "
                   "with every renaming that is injective, keeps reserved-ness, commutes with the name_k format and preserves String::cmp "
                   "(renaming_equivariant; a renaming that breaks the name_k format refutes the literal clause: witness). (2) NamesEmit: how "
                   "the HLSL (dx, vk, vk + buffer addresses) and Metal exporters consume the map - every declaration and use of an "
@@ -325,7 +331,13 @@ SPEC = {
             "block local, caller that only passes the values on, threaded global, resource, function, entry, namespace) for every "
             "identifier the exporters introduce (list = fixed list + identifiers re-extracted from the generator sources + "
             "RESERVED_NAMES + Spec lists, so a name dropped from RESERVED_NAMES stays swept); random programs over small name "
-            "pools, and a second random stream whose bodies use the wave intrinsics and whose pools take introduced names.  non-trivial = a "
+            "pools, and a second random stream whose bodies use the wave intrinsics and whose pools take introduced names.  Usage "
+            "positions (names stream): `use REF@p` prints the use as subscript index / index of an index / subscript object / "
+            "intrinsic argument / ternary arm / ternary condition / binary operand / cast operand / constructor argument / swizzle "
+            "object, `lvi NAME REF@p` as the initialiser of a local (typed before the local is declared); 10 directed shapes x 11 "
+            "positions (symbol used ONLY there next to a same-named local / parameter / block local, ::x, N::x, function called in "
+            "the initialiser of its namesake, use in another function) and a random stream (seed ^ 0x705c15a7) with scattered "
+            "positions.  non-trivial = a "
             "generated name occurs or >= 4 symbols are named",
     "trusted_base": [
         "Lean 4.33 kernel; axioms propext / Classical.choice / Quot.sound only (audited by #print axioms)",
@@ -336,6 +348,10 @@ SPEC = {
         "generator sources mention; mslImplicitParams / mslImplicitIntrinsics / mslImplicitOrder: per-arm extraction of the three "
         "ImplicitFunctionParameter matches, which must agree; generator/intrinsic_helpers.rs is excluded - it declares only inside "
         "namespace helper)",
+        "tools/gens/c15.py (Gen.UsageOperands: fields of enum Expression whose type mentions Expression / ConstructorSlot) and "
+        "tools/gens/c02.py (Gen.UsageTables.exprArms / symbolInserts: per match arm and or-pattern alternative of "
+        "gather_usage_for_expression, is the bound field passed on to a gather_usage_* call); reading 'a mention is recorded iff every "
+        "step of its path is descended into' (Thm/C15Usage.mentionRecorded) is the semantics of that recursive function",
         "hand-written Model/Names.lean mirrors NameMap::build, Model/NamesEmit.lean mirrors the consumption of the map by "
         "hlsl/src/ast_generate.rs and msl/src/generator.rs + generator/pipeline.rs; both tied to the code by the correspondence "
         "run only, except the implicit wave parameters and the introduced-name tables (Gen.Reserved)",
@@ -352,7 +368,9 @@ SPEC = {
         "the usage analysis is an input of the model (Input.used / NamesEmit.usedSyms: every global / function named by a use in "
         "some function body, cbuffer members counting as their global on Metal), which is what GlobalUsageAnalysis yields for the "
         "generated programs (literal initialisers, no default arguments); usage through global initialisers and default arguments "
-        "is not generated",
+        "is not generated; the expression walk is covered by usage_visits_all_operands (table) and the position stream, the "
+        "statement walk (stmtArms / initArms / forInitArms) and the call-closure fixpoint are C02's obligations "
+        "(all_positions_descended) and are exercised here only through expression statements and local initialisers",
         "emitted_* theorems assume the symbol has a name in the map (otherwise the real code panics 'No name for symbol') and, for "
         "injectivity, that every symbol has one registry entry (true of the parser's output; decided in the non-vacuity example)",
         "the skeleton (all user identifiers fresh) is an accepted program whenever the program is; programs with two entities of one "
